@@ -155,6 +155,34 @@ func runC10(r *Run) {
 			}
 		}
 	}
+	// directed: a session kept busy - touched (read, or written again) a little more often than the idle limit asks for -
+	// until well past the absolute limit, which alone must end it
+	for _, kind := range []string{"mem", "redis"} {
+		for _, p := range pairs {
+			if p[0] == 0 {
+				continue
+			}
+			step := time.Second
+			if p[1] > time.Second {
+				step = p[1] - time.Second
+			}
+			for _, touch := range []string{"gettok", "settok", "getauth-mixed"} {
+				ops := []storeOp{{Kind: "settok", ID: "busy", Tok: toks[0]}, {Kind: "setauth", ID: "busy", Auth: auths[0]}}
+				for t := time.Duration(0); t < p[0]+2*step; t += step {
+					ops = append(ops, storeOp{Kind: "tick", D: step})
+					switch touch {
+					case "gettok":
+						ops = append(ops, storeOp{Kind: "gettok", ID: "busy", Inst: int(t/step) % 2})
+					case "settok":
+						ops = append(ops, storeOp{Kind: "settok", ID: "busy", Tok: toks[int(t/step)%len(toks)]}, storeOp{Kind: "gettok", ID: "busy"})
+					default:
+						ops = append(ops, storeOp{Kind: "getauth", ID: "busy"}, storeOp{Kind: "gettok", ID: "busy", Inst: 1})
+					}
+				}
+				runScenario(r, scenario{Kind: kind, Abs: p[0], Idle: p[1], Ops: ops}, func(storeOp) bool { return true })
+			}
+		}
+	}
 	n := 800
 	if r.thorough() {
 		n = 30000
@@ -169,6 +197,7 @@ func runC10(r *Run) {
 			}
 		}
 	}
+	redisFaultSweep(r, "[C10]", nil)
 	systemLevelTimeouts(r)
 	r.Finish("store histories with (absolute, idle) in {0,3s,4s,10s,30s} pairs: directed write/wait/read/wait/read/write/wait/read patterns with waits on either side of every limit incl. the exact boundary and 1ns around it, plus random histories; memory store and Redis store (miniredis with the same virtual clock); " +
 		"judged by the Go reference (never honoured late; not dropped inside both limits, 1s allowance for Redis) and compared line by line with the Lean store models; the system-level part builds the stores through the real NewSessionStoreFactory(cfg).PreRun(); non-trivial = a read returned data, distinct by history")
